@@ -1,25 +1,10 @@
-"""C03: admissible rearrangements; caller data untouched -- thin wrapper over harness/core_runs.py (shared scripted-tape runs of the unstratified tests)."""
-from .. import core_runs as CR
-from ..core_runs import COQ_HEADER, run, to_coq, extra_terms, nontrivial, key, SKIPPED
+"""C03: admissible rearrangements; caller data untouched -- wrapper over harness/all_rand.py (scripted-tape runs of the unstratified and stratified tests and helpers)."""
+from .. import all_rand as AR
+from ..all_rand import COQ_HEADER, run, to_coq, extra_terms, nontrivial, key, cases, SKIPPED
 
-RULE = ('same runs as C01: every argument pair received by a recording statistic is checked to be an allocation of the pooled units (sign changes only for one_sample, label multiset for k_sample); caller arrays compared bytewise before/after every call (int and float dtypes)')
-ASSUMPTIONS = CR_ASSUMPTIONS = [
+RULE = ('all scripted runs of the unstratified and stratified tests and of permute / permute_within_groups / permute_rows: every argument received by a recording statistic and every helper output is checked to be an admissible rearrangement (pooled multiset and group sizes, signs only, labels, within stratum / row); caller arrays (int, float, object dtypes) compared bytewise around every call; non-trivial = non-constant data with more than one group/stratum; distinct by full input')
+ASSUMPTIONS = [
     "the generator is driven through a scripted subclass of cryptorandom.SHA256 (harness/tape.py): requests are answered lazily and logged; the same answers are replayed for the keep_dist twin",
-    "data are small integers times the product of the group sizes times a power of two (optionally plus a large offset), so every named float statistic is exact in binary64",
-    "SHA-256 / Mersenne-Twister output is assumed uniform (real-seed runs check reproducibility and the p-value assembly only)"]
-ALLOWED = ['input-modified', 'inadmissible', 'group-sizes', 'observed-not-data', 'double-eval']
-FOCUS = None
-
-
-def cases(tier, rng, dist):
-    return CR.cases(tier, rng, dist, focus=FOCUS)
-
-
-def oracle(c, o):
-    r = CR.oracle(c, o)
-    if r is None:
-        return None
-    suffix = r["cls"].split(":", 1)[1] if ":" in r["cls"] else r["cls"]
-    if suffix in ALLOWED or suffix in ("raises", "harness-exception"):
-        return r
-    return None
+    "data are exactly representable (small integers times group-size products times powers of two, optional large offsets), so named float statistics are exact; 't'-type statistics are black boxes checked through dist",
+    "SHA-256 / Mersenne-Twister output is assumed uniform; condition.argsort() is an oracle input of the model"]
+oracle = AR.filtered_oracle(['input-modified', 'inadmissible', 'group-sizes', 'observed-not-data', 'double-eval'])
